@@ -1608,7 +1608,6 @@ def t18(ctx, res):
     if st is None:
         raise AnalysisError("ObjectClassDict.__setitem__ vanished")
     # every path that reaches the plain dict store has excluded property values
-    from .paths import flatten_guard
     stored_plain = 0
     for p in enumerate_paths(view(st, ctx.prog).body):
         txts = [norm(s) for s in p.stmts if isinstance(s, ast.AST)]
@@ -1618,9 +1617,20 @@ def t18(ctx, res):
             continue
         stored_plain += 1
         guards = []
+
+        def atoms(t, pol):
+            # only what a path condition entails: (a and b) true -> both true; (a or b) false -> both false
+            if isinstance(t, str):
+                return
+            if isinstance(t, ast.UnaryOp) and isinstance(t.op, ast.Not):
+                atoms(t.operand, not pol)
+            elif isinstance(t, ast.BoolOp) and ((isinstance(t.op, ast.And) and pol) or (isinstance(t.op, ast.Or) and not pol)):
+                for v_ in t.values:
+                    atoms(v_, pol)
+            elif not isinstance(t, ast.BoolOp):
+                guards.append((norm(t), pol))
         for g, pol in p.conds:
-            for a, pl in flatten_guard(g, pol):
-                guards.append((norm(a), pl))
+            atoms(g, pol)
         excluded = any(("isinstance" in a and "_Property" in a and pl is False) for a, pl in guards)
         res.judge(True if excluded else False, st, "plain values only reach dict.__setitem__",
                   detail={"guards": [f"{a} is {pl}" for a, pl in guards[:6]]},
